@@ -32,9 +32,10 @@ def check_case(case):
     res = run_case(case)
     A = Analysis(case, res)
     st_ = check_c13(A)
-    timed = any(h[2] is not None for e in A.sim.events if hasattr(e, "hookspecs") for h in e.hookspecs)
+    specs = [h for v in case["config"].values() if isinstance(v, dict) and v.get("class") == "VProbeEvent" for h in v["hooks"]]
+    timed = any(h[2] is not None for h in specs)
     nt = st_["combos"] >= 4 and timed
-    empty = any(h[2] == [] for e in A.sim.events if hasattr(e, "hookspecs") for h in e.hookspecs)
+    empty = any(h[2] == [] for h in specs)
     classes = list(st_["types"]) + (["rewritten"] if st_["rewritten"] else []) + (["timed"] if timed else []) + (["empty_time_list"] if empty else [])
     return CaseInfo(nontrivial=nt, classes=classes, steps=st_["invocations"], sample={"case": summarize(case), "stats": st_})
 
